@@ -36,7 +36,7 @@ ASSUMPTIONS = [
     "GridFunction per leaf occurrence, the flip itself is not modelled (history dependence is C18's subject)",
     "out of the modelled language (harness and model both answer `out-of-scope`): NumPy arrays as operands, NumPy scalars "
     "combined with Python lists, integer/bool scalars, lists containing anything but grid functions, 0-sized block arrays, "
-    "NumPy broadcasting of 1-dof spaces, lists as long as a dof count",
+    "NumPy broadcasting of 1-dof spaces, lists as long as a dof count, single-precision NumPy scalars",
     "not modelled: GeneralizedBlockedOperator, MultitraceOperatorFromAssembler, ZeroBoundaryOperator.__iadd__/__isub__, "
     "MultiplicationOperator, DiagonalOperator, DiscreteRankOneOperator, GenericDiscreteBoundaryOperator (FMM), single "
     "precision dtypes (all leaves are float64 / complex128), potential operators with more than one component",
@@ -797,7 +797,9 @@ def _try(op, nodes, P, e):
 
 
 def random_scalar(rng):
-    k = rng.choice(["float", "complex", "f64", "c128", "f32", "c64", "float", "complex"])
+    # single-precision NumPy scalars are not generated: their results depend on whether the NumPy type subclasses the
+    # Python type (np.float64 / np.complex128 do, np.float32 / np.complex64 do not), which the model does not track
+    k = rng.choice(["float", "complex", "f64", "c128", "float", "complex"])
     re = rng.choice([-3, -2, -1.5, -0.75, -0.5, 0.25, 0.5, 1.25, 1.5, 2, 2.5])
     im = rng.choice([-2, -1, -0.5, 0.5, 0.75, 1, 1.5]) if SC_KINDS[k][0] else 0.0
     return ("sc", k, float(re), float(im))
@@ -955,8 +957,7 @@ def catalogue(ctx, P):
     o002, o022, o200, o222, o333 = (_opi(P, *t) for t in [(0, 0, 2), (0, 2, 2), (2, 0, 0), (2, 2, 2), (3, 3, 3)])
     dense = _opi(P, 1, 1, 1, dense=True)
     gf = lambda i: ("gf", i)  # noqa
-    sc = [("sc", "float", 1.5, 0.0), ("sc", "complex", 0.5, -1.0), ("sc", "f64", -2.0, 0.0), ("sc", "c128", 0.25, 0.75),
-          ("sc", "f32", 0.5, 0.0), ("sc", "c64", -1.0, 0.5)]
+    sc = [("sc", "float", 1.5, 0.0), ("sc", "complex", 0.5, -1.0), ("sc", "f64", -2.0, 0.0), ("sc", "c128", 0.25, 0.75)]
     K1 = _arr(1, 1, [(0, 0, o000)])
     K2 = _arr(2, 2, [(0, 0, o000), (1, 1, o111)])
     K3 = _arr(2, 2, [(0, 0, o000), (0, 1, o100), (1, 0, o011), (1, 1, o111)])
